@@ -84,7 +84,7 @@ func c09TranslateCond(s *source, x ast.Expr, params []c09Param) (string, error) 
 					return "", err
 				}
 				return "(" + a + " " + x.Op.String() + " " + b + ")", nil
-			case token.EQL, token.NEQ, token.GTR:
+			case token.EQL, token.NEQ, token.GTR, token.LSS:
 				neg := func(t string) string {
 					if x.Op == token.NEQ {
 						return "(!" + t + ")"
@@ -92,7 +92,7 @@ func c09TranslateCond(s *source, x ast.Expr, params []c09Param) (string, error) 
 					return t
 				}
 				// E == nil / E != nil
-				if id, ok := x.Y.(*ast.Ident); ok && id.Name == "nil" && x.Op != token.GTR {
+				if id, ok := x.Y.(*ast.Ident); ok && id.Name == "nil" && x.Op != token.GTR && x.Op != token.LSS {
 					if p := find(x.X); p != nil && p.kind == "flag" {
 						if x.Op == token.EQL {
 							return "(!" + p.name + ")", nil
@@ -111,11 +111,14 @@ func c09TranslateCond(s *source, x ast.Expr, params []c09Param) (string, error) 
 							if x.Op == token.GTR {
 								return "decide (" + n + " > " + k.Value + ")", nil
 							}
+							if x.Op == token.LSS {
+								return "decide (" + n + " < " + k.Value + ")", nil
+							}
 							return neg("(" + n + " == " + k.Value + ")"), nil
 						}
 					}
 				}
-				if x.Op != token.GTR {
+				if x.Op != token.GTR && x.Op != token.LSS {
 					// E[0] op C   (first byte of a string against a byte constant)
 					if ix, ok := x.X.(*ast.IndexExpr); ok {
 						if k, ok := ix.Index.(*ast.BasicLit); ok && k.Value == "0" {
@@ -600,6 +603,11 @@ func init() {
 		e.c09Cond(s, eng, "engine.bindRoute", "condBindRouteNative", c09If(0), []c09Param{{"chn", "chn", "flag"}})
 		e.c09Cond(s, eng, "engine.appendAuthHandler", "condAuthEnabled", c09If(0), []c09Param{{"fr.jwt.enabled", "enabled", "flag"}})
 		e.c09Cond(s, eng, "engine.appendAuthHandler", "condAuthNoPrev", c09If(1), []c09Param{{"fr.jwt.prevSecret", "prev", "str"}})
+		// round 5: validateSecret (WithJwt / WithJwtTransition panic on a short secret: nothing is registered)
+		e.c09Cond(s, srv, "validateSecret", "condSecretTooShort", c09If(0), []c09Param{{"secret", "secretLen", "nat"}})
+		e.c09DetailDef(s, srv, "validateSecret", "validateSecretStmts")
+		e.c09Calls(s, srv, "WithJwt", "withJwtCalls")
+		e.c09Calls(s, srv, "WithJwtTransition", "withJwtTransitionCalls")
 		// round 5: what the constructed values are fed from
 		e.c09Fields(s, srv, "WithPrefix", "Route", "withPrefixRouteFields")
 		e.c09Calls(s, srv, "WithPrefix", "withPrefixCalls")
